@@ -21,6 +21,7 @@
    The full statement is C02_derivatives_are_exact_full below (a Definition, not a theorem). *)
 From Coq Require Import List QArith Reals Lra Lia Arith Bool.
 From NV Require Import Scalar.Ops Model.Common Model.Basis Model.Knots Model.Eval Model.Degree Model.Derivs.
+From NV Require Import Model.Common Model.Basis Model.Knots Model.Eval Model.Degree Model.Derivs Proofs.Boehm Proofs.DerivAnalytic Proofs.BasisOneR Proofs.DerivLink Proofs.DerivLinkCurve Proofs.EvalR Proofs.BasisR Proofs.DerivsR Proofs.DerivsRatSurf Proofs.LeibnizRule Proofs.DerivLinkAbs Proofs.DerivRational Proofs.DerivSurface Proofs.DerivsRatSurfGen Proofs.DerivRationalSurface Proofs.DerivTangents Proofs.DerivGeneralInst.
 From NV Require Import Proofs.DersEq210 Proofs.DersNdu Proofs.DersGeneral Proofs.DersGeneralAnalytic Proofs.DersGeneralOne Proofs.DersGeneralCurve.
 From NV Require Import Proofs.Boehm Proofs.DerivAnalytic Proofs.BasisOneR Proofs.DerivLink Proofs.DerivLinkCurve Proofs.EvalR.
 From NV Require Import Proofs.BasisR Proofs.DerivsR Proofs.DerivsRatSurf Proofs.DersRow0 Proofs.DerivsOrder0 Proofs.DersWindow Proofs.DersWindow56 Proofs.DerivsAgree Proofs.DerivsAgreeSurf Proofs.Boehm Proofs.Hodograph.
@@ -382,3 +383,270 @@ Theorem C02_curve_derivs_left_derivative_at_domain_end : forall (U : list R) (P 
 Proof. exact curve_derivs_left_derivative_at_end. Qed.
 Print Assumptions C02_curve_derivs_left_derivative_at_domain_end.
 
+(* ====================== RATIONAL CURVES, SURFACES, RATIONAL SURFACES, TANGENT/NORMAL (round 2, Proofs/LeibnizRule.v, DerivRational.v, DerivSurface.v,
+   DerivRationalSurface.v, DerivTangents.v, DerivGeneralInst.v): the returned derivative vectors are the true (mixed partial) derivatives ====================== *)
+
+Import ListNotations.
+
+(* ------------------------------------------------------------------------------------------------ pure analysis *)
+(* [G] general Leibniz rule on an open interval: if a = w * c and (a_k), (w_k), (c_k) are the iterated derivatives, then
+       a_k = sum_{i<=k} C(k,i) w_i c_{k-i} *)
+Theorem C02_leibniz_rule : forall (lo hi : R) (n : nat) (a w c : nat -> R -> R),
+  (forall k x, (k < n)%nat -> (lo < x < hi)%R -> derivable_pt_lim (a k) x (a (S k) x)) ->
+  (forall k x, (k < n)%nat -> (lo < x < hi)%R -> derivable_pt_lim (w k) x (w (S k) x)) ->
+  (forall k x, (k < n)%nat -> (lo < x < hi)%R -> derivable_pt_lim (c k) x (c (S k) x)) ->
+  (forall x, (lo < x < hi)%R -> a 0%nat x = (w 0%nat x * c 0%nat x)%R) ->
+  forall k, (k <= n)%nat -> forall x, (lo < x < hi)%R ->
+    a k x = sumf (fun i => (INR (binom k i) * w i x * c (k - i)%nat x)%R) (S k).
+Proof. exact leibniz_rule. Qed.
+Print Assumptions C02_leibniz_rule.
+
+(* [G] converse for quotients: a family (c_k) that satisfies the Leibniz recursion against the true derivative families of
+       a and w (w nowhere zero) is the derivative family of a/w: this is what turns C02_rat_curve_derivs_leibniz into a
+       statement about derivatives *)
+Theorem C02_quotient_derivatives_unique : forall (lo hi : R) (n : nat) (a w c : nat -> R -> R),
+  (forall k x, (k < n)%nat -> (lo < x < hi)%R -> derivable_pt_lim (a k) x (a (S k) x)) ->
+  (forall k x, (k < n)%nat -> (lo < x < hi)%R -> derivable_pt_lim (w k) x (w (S k) x)) ->
+  (forall x, (lo < x < hi)%R -> w 0%nat x <> 0%R) ->
+  (forall k x, (k <= n)%nat -> (lo < x < hi)%R ->
+     sumf (fun i => (INR (binom k i) * w i x * c (k - i)%nat x)%R) (S k) = a k x) ->
+  forall k, (k <= n)%nat -> kth_deriv_on lo hi k (fun x => (a 0%nat x / w 0%nat x)%R) (c k).
+Proof. exact quotient_kth_deriv_on. Qed.
+Print Assumptions C02_quotient_derivatives_unique.
+
+(* ------------------------------------------------------------------------------------------------ rational curves *)
+(* [B: degrees 1..5; every sorted knot vector, every span of the domain, every order (also above the degree), positive weights]
+   coordinate d of the k-th vector returned by A4.2 on the homogeneous net Pw is the k-th iterated analytic derivative of the
+   NURBS curve coordinate A_d(x)/w(x) on the open span *)
+Theorem C02_rat_curve_derivs_are_the_true_derivatives_deg_le_5 : forall (U : list R) (Pw : list (list R)) (p dim : nat),
+  sortedR U -> wf_net Pw (S dim) -> (1 <= p <= 5)%nat -> (p < length Pw)%nat -> length U = (length Pw + p + 1)%nat ->
+  (forall i, (i < length Pw)%nat -> (0 < coord Pw i dim)%R) ->
+  forall order s : nat, (p <= s < length Pw)%nat -> forall k d : nat, (k <= order)%nat -> (d < dim)%nat ->
+  kth_deriv_on (knR U s) (knR U (s + 1)) k
+    (fun x => (curve_def U p Pw d x / curve_def U p Pw dim x)%R)
+    (fun x => nth d (nth k (rat_curve_derivs Rops (curve_derivs Rops (S dim) p U Pw x order) order) []) 0%R).
+Proof. exact rat_curve_derivs_are_true_derivatives_deg_le_5. Qed.
+Print Assumptions C02_rat_curve_derivs_are_the_true_derivatives_deg_le_5.
+
+(* right derivatives on the half-open span, in particular at the knot (the property's convention) *)
+Theorem C02_rat_curve_derivs_right_derivative_deg_le_5 : forall (U : list R) (Pw : list (list R)) (p dim : nat),
+  sortedR U -> wf_net Pw (S dim) -> (1 <= p <= 5)%nat -> (p < length Pw)%nat -> length U = (length Pw + p + 1)%nat ->
+  (forall i, (i < length Pw)%nat -> (0 < coord Pw i dim)%R) ->
+  forall order s : nat, (p <= s < length Pw)%nat -> forall (k d : nat) (u : R), (S k <= order)%nat -> (d < dim)%nat ->
+  (knR U s <= u < knR U (s + 1))%R ->
+  right_derivable_pt_lim (fun x => nth d (nth k (rat_curve_derivs Rops (curve_derivs Rops (S dim) p U Pw x order) order) []) 0%R) u
+    (nth d (nth (S k) (rat_curve_derivs Rops (curve_derivs Rops (S dim) p U Pw u order) order) []) 0%R).
+Proof. exact rat_curve_derivs_right_derivative_deg_le_5. Qed.
+Print Assumptions C02_rat_curve_derivs_right_derivative_deg_le_5.
+
+(* order 0 is the evaluated point of the NURBS curve (C01's obj_curve_point), and the tangent query returns its derivative *)
+Theorem C02_rat_curve_order0_is_point_deg_le_5 : forall (U : list R) (Pw : list (list R)) (p dim : nat),
+  sortedR U -> wf_net Pw (S dim) -> (1 <= p <= 5)%nat -> (p < length Pw)%nat -> length U = (length Pw + p + 1)%nat ->
+  (forall i, (i < length Pw)%nat -> (0 < coord Pw i dim)%R) ->
+  forall order s : nat, (p <= s < length Pw)%nat -> forall (d : nat) (x : R), (d < dim)%nat -> (knR U s <= x < knR U (s + 1))%R ->
+  nth d (nth 0 (rat_curve_derivs Rops (curve_derivs Rops (S dim) p U Pw x order) order) []) 0%R
+  = nth d (obj_curve_point Rops true dim p U Pw x) 0%R.
+Proof. exact rat_curve_derivs_order0_is_point_deg_le_5. Qed.
+Print Assumptions C02_rat_curve_order0_is_point_deg_le_5.
+
+Theorem C02_rat_tangent_curve_is_derivative_of_point_deg_le_5 : forall (U : list R) (Pw : list (list R)) (p dim : nat),
+  sortedR U -> wf_net Pw (S dim) -> (1 <= p <= 5)%nat -> (p < length Pw)%nat -> length U = (length Pw + p + 1)%nat ->
+  (forall i, (i < length Pw)%nat -> (0 < coord Pw i dim)%R) ->
+  forall s, (p <= s < length Pw)%nat -> forall normalize u pt T d,
+  tangent_curve Rops normalize true false (S dim) p U Pw u = Ok (pt, T) -> (d < dim)%nat -> (knR U s < u < knR U (s + 1))%R ->
+  derivable_pt_lim (fun x => nth d (obj_curve_point Rops true dim p U Pw x) 0%R) u (nth d T 0%R).
+Proof. exact rat_tangent_curve_is_derivative_of_point_deg_le_5. Qed.
+Print Assumptions C02_rat_tangent_curve_is_derivative_of_point_deg_le_5.
+
+(* ------------------------------------------------------------------------------------------------ surfaces *)
+(* [B: degrees 1..5 per direction; every order, all k, l <= order incl. above the degrees] A3.6: SKL[k][l] is the tensor product
+   of the Eq. 2.9 derivatives, sum over the whole net *)
+Theorem C02_surface_derivs_is_eq29_tensor_deg_le_5 : forall (Uu Uv : list R) (P : list (list R)) (pu pv su sv dim : nat),
+  sortedR Uu -> sortedR Uv -> wf_net P dim -> length P = (su * sv)%nat -> (1 <= pu <= 5)%nat -> (1 <= pv <= 5)%nat ->
+  (pu < su)%nat -> (pv < sv)%nat -> length Uu = (su + pu + 1)%nat -> length Uv = (sv + pv + 1)%nat ->
+  forall (u v : R) (order k l : nat), (knR Uu pu <= u < knR Uu su)%R -> (knR Uv pv <= v < knR Uv sv)%R ->
+  (k <= order)%nat -> (l <= order)%nat ->
+  length (get3 (surface_derivs Rops dim pu pv Uu Uv su sv P u v order) k l) = dim /\
+  forall d, (d < dim)%nat ->
+    nth d (get3 (surface_derivs Rops dim pu pv Uu Uv su sv P u v order) k l) 0%R
+    = sumf (fun i => sumf (fun j => (DerivAnalytic.dN (Ufun Uu) k pu i u * DerivAnalytic.dN (Ufun Uv) l pv j v
+                                      * coord P (j + sv * i) d)%R) sv) su.
+Proof. exact surface_derivs_is_dN_tensor_deg_le_5. Qed.
+Print Assumptions C02_surface_derivs_is_eq29_tensor_deg_le_5.
+
+(* the mixed partials: k derivations in u of the surface (v fixed) give SKL[k][0], then l derivations in v (u fixed) give SKL[k][l] *)
+Theorem C02_surface_derivs_are_the_mixed_partials_deg_le_5 : forall (Uu Uv : list R) (P : list (list R)) (pu pv su sv dim : nat),
+  sortedR Uu -> sortedR Uv -> wf_net P dim -> length P = (su * sv)%nat -> (1 <= pu <= 5)%nat -> (1 <= pv <= 5)%nat ->
+  (pu < su)%nat -> (pv < sv)%nat -> length Uu = (su + pu + 1)%nat -> length Uv = (sv + pv + 1)%nat ->
+  forall tu tv : nat, (pu <= tu < su)%nat -> (pv <= tv < sv)%nat ->
+  forall order k l d : nat, (k <= order)%nat -> (l <= order)%nat -> (d < dim)%nat ->
+  (forall v, (knR Uv pv <= v < knR Uv sv)%R ->
+     kth_deriv_on (knR Uu tu) (knR Uu (tu + 1)) k (fun x => surface_def Uu Uv pu pv su sv P d x v)
+       (fun x => nth d (get3 (surface_derivs Rops dim pu pv Uu Uv su sv P x v order) k 0) 0%R)) /\
+  (forall u, (knR Uu pu <= u < knR Uu su)%R ->
+     kth_deriv_on (knR Uv tv) (knR Uv (tv + 1)) l
+       (fun y => nth d (get3 (surface_derivs Rops dim pu pv Uu Uv su sv P u y order) k 0) 0%R)
+       (fun y => nth d (get3 (surface_derivs Rops dim pu pv Uu Uv su sv P u y order) k l) 0%R)).
+Proof. exact surface_derivs_are_mixed_partials_deg_le_5. Qed.
+Print Assumptions C02_surface_derivs_are_the_mixed_partials_deg_le_5.
+
+(* every entry: d/du SKL[k][l] = SKL[k+1][l] and d/dv SKL[k][l] = SKL[k][l+1] (so the order of derivation does not matter) *)
+Theorem C02_surface_derivs_partial_u_deg_le_5 : forall (Uu Uv : list R) (P : list (list R)) (pu pv su sv dim : nat),
+  sortedR Uu -> sortedR Uv -> wf_net P dim -> length P = (su * sv)%nat -> (1 <= pu <= 5)%nat -> (1 <= pv <= 5)%nat ->
+  (pu < su)%nat -> (pv < sv)%nat -> length Uu = (su + pu + 1)%nat -> length Uv = (sv + pv + 1)%nat ->
+  forall tu : nat, (pu <= tu < su)%nat -> forall (order k l d : nat) (u v : R),
+  (S k <= order)%nat -> (l <= order)%nat -> (d < dim)%nat -> (knR Uu tu < u < knR Uu (tu + 1))%R -> (knR Uv pv <= v < knR Uv sv)%R ->
+  derivable_pt_lim (fun x => nth d (get3 (surface_derivs Rops dim pu pv Uu Uv su sv P x v order) k l) 0%R) u
+                   (nth d (get3 (surface_derivs Rops dim pu pv Uu Uv su sv P u v order) (S k) l) 0%R).
+Proof. exact surface_derivs_partial_u_deg_le_5. Qed.
+Print Assumptions C02_surface_derivs_partial_u_deg_le_5.
+
+Theorem C02_surface_derivs_partial_v_deg_le_5 : forall (Uu Uv : list R) (P : list (list R)) (pu pv su sv dim : nat),
+  sortedR Uu -> sortedR Uv -> wf_net P dim -> length P = (su * sv)%nat -> (1 <= pu <= 5)%nat -> (1 <= pv <= 5)%nat ->
+  (pu < su)%nat -> (pv < sv)%nat -> length Uu = (su + pu + 1)%nat -> length Uv = (sv + pv + 1)%nat ->
+  forall tv : nat, (pv <= tv < sv)%nat -> forall (order k l d : nat) (u v : R),
+  (k <= order)%nat -> (S l <= order)%nat -> (d < dim)%nat -> (knR Uu pu <= u < knR Uu su)%R -> (knR Uv tv < v < knR Uv (tv + 1))%R ->
+  derivable_pt_lim (fun y => nth d (get3 (surface_derivs Rops dim pu pv Uu Uv su sv P u y order) k l) 0%R) v
+                   (nth d (get3 (surface_derivs Rops dim pu pv Uu Uv su sv P u v order) k (S l)) 0%R).
+Proof. exact surface_derivs_partial_v_deg_le_5. Qed.
+Print Assumptions C02_surface_derivs_partial_v_deg_le_5.
+
+(* right derivatives at knots *)
+Theorem C02_surface_derivs_partial_u_right_deg_le_5 : forall (Uu Uv : list R) (P : list (list R)) (pu pv su sv dim : nat),
+  sortedR Uu -> sortedR Uv -> wf_net P dim -> length P = (su * sv)%nat -> (1 <= pu <= 5)%nat -> (1 <= pv <= 5)%nat ->
+  (pu < su)%nat -> (pv < sv)%nat -> length Uu = (su + pu + 1)%nat -> length Uv = (sv + pv + 1)%nat ->
+  forall tu : nat, (pu <= tu < su)%nat -> forall (order k l d : nat) (u v : R),
+  (S k <= order)%nat -> (l <= order)%nat -> (d < dim)%nat -> (knR Uu tu <= u < knR Uu (tu + 1))%R -> (knR Uv pv <= v < knR Uv sv)%R ->
+  right_derivable_pt_lim (fun x => nth d (get3 (surface_derivs Rops dim pu pv Uu Uv su sv P x v order) k l) 0%R) u
+                         (nth d (get3 (surface_derivs Rops dim pu pv Uu Uv su sv P u v order) (S k) l) 0%R).
+Proof. exact surface_derivs_partial_u_right_deg_le_5. Qed.
+Print Assumptions C02_surface_derivs_partial_u_right_deg_le_5.
+
+(* ------------------------------------------------------------------------------------------------ rational surfaces *)
+(* [G] A4.4, EVERY order, every entry of the square, every coordinate c: the two-variable Leibniz identity
+       (replaces C02_rat_surface_derivs_leibniz_order_le_3_partial) *)
+Theorem C02_rat_surface_derivs_leibniz : forall (SKLw : list (list (list R))) (d order c : nat), (c < d)%nat ->
+  (forall k l, (k <= order)%nat -> (l <= order)%nat -> length (get3 SKLw k l) = S d) ->
+  vlast Rops (get3 SKLw 0 0) <> 0%R ->
+  let SK := rat_surface_derivs Rops (S d) SKLw order in
+  forall k l, (k <= order)%nat -> (l <= order)%nat ->
+    length (get3 SK k l) = d /\
+    leibniz2 (fun i j => vlast Rops (get3 SKLw i j)) (fun k l => nth c (get3 SK k l) 0%R) k l
+    = nth c (removelast (get3 SKLw k l)) 0%R.
+Proof. exact rat_surface_derivs_leibniz_gen. Qed.
+Print Assumptions C02_rat_surface_derivs_leibniz.
+
+(* [G] all degrees: positive weights give a positive weight function on the whole domain (denominator of the NURBS surface) *)
+Theorem C02_surface_weight_function_positive : forall (Uu Uv : list R) (Pw : list (list R)) (pu pv su sv dim : nat) (u v : R),
+  sortedR Uu -> sortedR Uv -> (pu < su)%nat -> (pv < sv)%nat -> length Uu = (su + pu + 1)%nat -> length Uv = (sv + pv + 1)%nat ->
+  (knR Uu pu <= u < knR Uu su)%R -> (knR Uv pv <= v < knR Uv sv)%R ->
+  (forall i, (i < su * sv)%nat -> (0 < coord Pw i dim)%R) -> (0 < surface_def Uu Uv pu pv su sv Pw dim u v)%R.
+Proof. exact surface_weight_function_positive. Qed.
+Print Assumptions C02_surface_weight_function_positive.
+
+(* [B: degrees 1..5 per direction; every order; positive weights] the (k,l) entry returned by A4.4 is the (k,l) mixed partial of the
+   NURBS surface coordinate A_d/w *)
+Theorem C02_rat_surface_derivs_are_the_mixed_partials_deg_le_5 : forall (Uu Uv : list R) (Pw : list (list R)) (pu pv su sv dim : nat),
+  sortedR Uu -> sortedR Uv -> wf_net Pw (S dim) -> length Pw = (su * sv)%nat -> (1 <= pu <= 5)%nat -> (1 <= pv <= 5)%nat ->
+  (pu < su)%nat -> (pv < sv)%nat -> length Uu = (su + pu + 1)%nat -> length Uv = (sv + pv + 1)%nat ->
+  (forall i, (i < su * sv)%nat -> (0 < coord Pw i dim)%R) ->
+  forall order tu tv : nat, (pu <= tu < su)%nat -> (pv <= tv < sv)%nat ->
+  forall k l d : nat, (k <= order)%nat -> (l <= order)%nat -> (d < dim)%nat ->
+  (forall v, (knR Uv pv <= v < knR Uv sv)%R ->
+     kth_deriv_on (knR Uu tu) (knR Uu (tu + 1)) k
+       (fun x => (surface_def Uu Uv pu pv su sv Pw d x v / surface_def Uu Uv pu pv su sv Pw dim x v)%R)
+       (fun x => nth d (get3 (rat_surface_derivs Rops (S dim) (surface_derivs Rops (S dim) pu pv Uu Uv su sv Pw x v order) order) k 0) 0%R)) /\
+  (forall u, (knR Uu pu <= u < knR Uu su)%R ->
+     kth_deriv_on (knR Uv tv) (knR Uv (tv + 1)) l
+       (fun y => nth d (get3 (rat_surface_derivs Rops (S dim) (surface_derivs Rops (S dim) pu pv Uu Uv su sv Pw u y order) order) k 0) 0%R)
+       (fun y => nth d (get3 (rat_surface_derivs Rops (S dim) (surface_derivs Rops (S dim) pu pv Uu Uv su sv Pw u y order) order) k l) 0%R)).
+Proof. exact rat_surface_derivs_are_mixed_partials_deg_le_5. Qed.
+Print Assumptions C02_rat_surface_derivs_are_the_mixed_partials_deg_le_5.
+
+Theorem C02_rat_surface_derivs_partial_u_deg_le_5 : forall (Uu Uv : list R) (Pw : list (list R)) (pu pv su sv dim : nat),
+  sortedR Uu -> sortedR Uv -> wf_net Pw (S dim) -> length Pw = (su * sv)%nat -> (1 <= pu <= 5)%nat -> (1 <= pv <= 5)%nat ->
+  (pu < su)%nat -> (pv < sv)%nat -> length Uu = (su + pu + 1)%nat -> length Uv = (sv + pv + 1)%nat ->
+  (forall i, (i < su * sv)%nat -> (0 < coord Pw i dim)%R) ->
+  forall order tu : nat, (pu <= tu < su)%nat -> forall (k l d : nat) (u v : R),
+  (S k <= order)%nat -> (l <= order)%nat -> (d < dim)%nat -> (knR Uu tu < u < knR Uu (tu + 1))%R -> (knR Uv pv <= v < knR Uv sv)%R ->
+  derivable_pt_lim
+    (fun x => nth d (get3 (rat_surface_derivs Rops (S dim) (surface_derivs Rops (S dim) pu pv Uu Uv su sv Pw x v order) order) k l) 0%R) u
+    (nth d (get3 (rat_surface_derivs Rops (S dim) (surface_derivs Rops (S dim) pu pv Uu Uv su sv Pw u v order) order) (S k) l) 0%R).
+Proof. exact rat_surface_derivs_partial_u_deg_le_5. Qed.
+Print Assumptions C02_rat_surface_derivs_partial_u_deg_le_5.
+
+Theorem C02_rat_surface_derivs_partial_v_deg_le_5 : forall (Uu Uv : list R) (Pw : list (list R)) (pu pv su sv dim : nat),
+  sortedR Uu -> sortedR Uv -> wf_net Pw (S dim) -> length Pw = (su * sv)%nat -> (1 <= pu <= 5)%nat -> (1 <= pv <= 5)%nat ->
+  (pu < su)%nat -> (pv < sv)%nat -> length Uu = (su + pu + 1)%nat -> length Uv = (sv + pv + 1)%nat ->
+  (forall i, (i < su * sv)%nat -> (0 < coord Pw i dim)%R) ->
+  forall order tv : nat, (pv <= tv < sv)%nat -> forall (k l d : nat) (u v : R),
+  (k <= order)%nat -> (S l <= order)%nat -> (d < dim)%nat -> (knR Uu pu <= u < knR Uu su)%R -> (knR Uv tv < v < knR Uv (tv + 1))%R ->
+  derivable_pt_lim
+    (fun y => nth d (get3 (rat_surface_derivs Rops (S dim) (surface_derivs Rops (S dim) pu pv Uu Uv su sv Pw u y order) order) k l) 0%R) v
+    (nth d (get3 (rat_surface_derivs Rops (S dim) (surface_derivs Rops (S dim) pu pv Uu Uv su sv Pw u v order) order) k (S l)) 0%R).
+Proof. exact rat_surface_derivs_partial_v_deg_le_5. Qed.
+Print Assumptions C02_rat_surface_derivs_partial_v_deg_le_5.
+
+(* ------------------------------------------------------------------------------------------------ tangent / normal queries *)
+(* the normal returned by operations.normal is the cross product of the TRUE partial-derivative vectors of the evaluated point,
+   B-spline (rational = false) or NURBS (rational = true) *)
+Theorem C02_normal_is_cross_of_true_partials_deg_le_5 : forall (Uu Uv : list R) (pu pv su sv : nat),
+  sortedR Uu -> sortedR Uv -> (1 <= pu <= 5)%nat -> (1 <= pv <= 5)%nat -> (pu < su)%nat -> (pv < sv)%nat ->
+  length Uu = (su + pu + 1)%nat -> length Uv = (sv + pv + 1)%nat ->
+  forall tu tv : nat, (pu <= tu < su)%nat -> (pv <= tv < sv)%nat ->
+  forall (rational : bool) (Pw : list (list R)) (dim : nat),
+  let D := if rational then S dim else dim in
+  wf_net Pw D -> length Pw = (su * sv)%nat -> (rational = true -> forall i, (i < su * sv)%nat -> (0 < coord Pw i dim)%R) ->
+  forall normalize u v pt nv,
+  normal_surface Rops normalize rational false D pu pv Uu Uv su sv Pw u v = Ok (pt, nv) ->
+  (knR Uu tu < u < knR Uu (tu + 1))%R -> (knR Uv tv < v < knR Uv (tv + 1))%R ->
+  exists Su Sv, nv = cross Rops Su Sv /\ forall d, (d < dim)%nat ->
+    derivable_pt_lim (fun x => nth d (obj_surface_point Rops rational dim pu pv Uu Uv su sv Pw (x, v)) 0%R) u (nth d Su 0%R) /\
+    derivable_pt_lim (fun y => nth d (obj_surface_point Rops rational dim pu pv Uu Uv su sv Pw (u, y)) 0%R) v (nth d Sv 0%R).
+Proof. exact normal_surface_is_cross_of_true_partials_deg_le_5. Qed.
+Print Assumptions C02_normal_is_cross_of_true_partials_deg_le_5.
+
+(* ------------------------------------------------------------------------------------------------ all degrees *)
+(* [G: ALL degrees] the same three main theorems with the general-degree link DersGeneral.ders_general (needs Proofs/DersGeneral.v in
+   the closure) *)
+Theorem C02_rat_curve_derivs_are_the_true_derivatives : forall (U : list R) (Pw : list (list R)) (p dim : nat),
+  sortedR U -> wf_net Pw (S dim) -> (p < length Pw)%nat -> length U = (length Pw + p + 1)%nat ->
+  (forall i, (i < length Pw)%nat -> (0 < coord Pw i dim)%R) ->
+  forall order s : nat, (p <= s < length Pw)%nat -> forall k d : nat, (k <= order)%nat -> (d < dim)%nat ->
+  kth_deriv_on (knR U s) (knR U (s + 1)) k
+    (fun x => (curve_def U p Pw d x / curve_def U p Pw dim x)%R)
+    (fun x => nth d (nth k (rat_curve_derivs Rops (curve_derivs Rops (S dim) p U Pw x order) order) []) 0%R).
+Proof. exact rat_curve_derivs_are_true_derivatives_general. Qed.
+Print Assumptions C02_rat_curve_derivs_are_the_true_derivatives.
+
+Theorem C02_surface_derivs_are_the_mixed_partials : forall (Uu Uv : list R) (P : list (list R)) (pu pv su sv dim : nat),
+  sortedR Uu -> sortedR Uv -> wf_net P dim -> length P = (su * sv)%nat ->
+  (pu < su)%nat -> (pv < sv)%nat -> length Uu = (su + pu + 1)%nat -> length Uv = (sv + pv + 1)%nat ->
+  forall tu tv : nat, (pu <= tu < su)%nat -> (pv <= tv < sv)%nat ->
+  forall order k l d : nat, (k <= order)%nat -> (l <= order)%nat -> (d < dim)%nat ->
+  (forall v, (knR Uv pv <= v < knR Uv sv)%R ->
+     kth_deriv_on (knR Uu tu) (knR Uu (tu + 1)) k (fun x => surface_def Uu Uv pu pv su sv P d x v)
+       (fun x => nth d (get3 (surface_derivs Rops dim pu pv Uu Uv su sv P x v order) k 0) 0%R)) /\
+  (forall u, (knR Uu pu <= u < knR Uu su)%R ->
+     kth_deriv_on (knR Uv tv) (knR Uv (tv + 1)) l
+       (fun y => nth d (get3 (surface_derivs Rops dim pu pv Uu Uv su sv P u y order) k 0) 0%R)
+       (fun y => nth d (get3 (surface_derivs Rops dim pu pv Uu Uv su sv P u y order) k l) 0%R)).
+Proof. exact surface_derivs_are_mixed_partials_general. Qed.
+Print Assumptions C02_surface_derivs_are_the_mixed_partials.
+
+Theorem C02_rat_surface_derivs_are_the_mixed_partials : forall (Uu Uv : list R) (Pw : list (list R)) (pu pv su sv dim : nat),
+  sortedR Uu -> sortedR Uv -> wf_net Pw (S dim) -> length Pw = (su * sv)%nat ->
+  (pu < su)%nat -> (pv < sv)%nat -> length Uu = (su + pu + 1)%nat -> length Uv = (sv + pv + 1)%nat ->
+  (forall i, (i < su * sv)%nat -> (0 < coord Pw i dim)%R) ->
+  forall order tu tv : nat, (pu <= tu < su)%nat -> (pv <= tv < sv)%nat ->
+  forall k l d : nat, (k <= order)%nat -> (l <= order)%nat -> (d < dim)%nat ->
+  (forall v, (knR Uv pv <= v < knR Uv sv)%R ->
+     kth_deriv_on (knR Uu tu) (knR Uu (tu + 1)) k
+       (fun x => (surface_def Uu Uv pu pv su sv Pw d x v / surface_def Uu Uv pu pv su sv Pw dim x v)%R)
+       (fun x => nth d (get3 (rat_surface_derivs Rops (S dim) (surface_derivs Rops (S dim) pu pv Uu Uv su sv Pw x v order) order) k 0) 0%R)) /\
+  (forall u, (knR Uu pu <= u < knR Uu su)%R ->
+     kth_deriv_on (knR Uv tv) (knR Uv (tv + 1)) l
+       (fun y => nth d (get3 (rat_surface_derivs Rops (S dim) (surface_derivs Rops (S dim) pu pv Uu Uv su sv Pw u y order) order) k 0) 0%R)
+       (fun y => nth d (get3 (rat_surface_derivs Rops (S dim) (surface_derivs Rops (S dim) pu pv Uu Uv su sv Pw u y order) order) k l) 0%R)).
+Proof. exact rat_surface_derivs_are_mixed_partials_general. Qed.
+Print Assumptions C02_rat_surface_derivs_are_the_mixed_partials.
